@@ -308,12 +308,17 @@ func c11SetupEval(f []string) (string, []string) {
 
 // c11InWorker runs one case in the worker process and wraps answer and tags into the worker's answer line.
 func c11InWorker(eval func([]string) (string, []string), f []string) (out string, tags []string) {
+	if f[0] == c11Ping { // the parent wants to know whether the process is still alive a moment after a case
+		time.Sleep(3 * time.Millisecond)
+		return c11WorkerAnswer("pong", nil), nil
+	}
 	before := runtime.NumGoroutine()
 	defer func() {
 		if r := recover(); r != nil { // a panic of the harness' own code
 			out, tags = "PANIC:harness:"+strings.SplitN(fmt.Sprint(r), "\n", 2)[0], []string{"dir=" + f[0]}
 		}
 		c11Settle(before)
+		tags = append(tags, fmt.Sprintf("grew=%d", runtime.NumGoroutine()-before)) // for the parent, see c11AskSettled
 		out, tags = c11WorkerAnswer(out, tags), nil
 	}()
 	return eval(f)
@@ -452,6 +457,39 @@ func c11Harvest(n ast.Node, consts map[string]string, seen map[string]bool) {
 	})
 }
 
+// c11CaseWords: the words of a package that label a `case` clause — the names of its sub-directives (and of the
+// directive-level keywords), without the value tables (cipher names, curves, policies) the full vocabulary has.
+func c11CaseWords(repo, pkg string) []string {
+	files := c11ParsePkg(repo, pkg)
+	consts := c11Consts(files)
+	seen := map[string]bool{}
+	for _, af := range files {
+		ast.Inspect(af, func(n ast.Node) bool {
+			if cc, ok := n.(*ast.CaseClause); ok {
+				for _, e := range cc.List {
+					switch x := e.(type) {
+					case *ast.BasicLit:
+						if s, err := strconv.Unquote(x.Value); x.Kind == token.STRING && err == nil && c11Word(s) {
+							seen[s] = true
+						}
+					case *ast.Ident:
+						if v, ok := consts[x.Name]; ok && c11Word(v) {
+							seen[v] = true
+						}
+					}
+				}
+			}
+			return true
+		})
+	}
+	var out []string
+	for s := range seen {
+		out = append(out, s)
+	}
+	sort.Strings(out)
+	return out
+}
+
 const c11Module = "github.com/tmpim/casket"
 
 // c11Vocab returns the keyword vocabulary of a directive:
@@ -553,7 +591,20 @@ var c11Core = []string{"a", "/", "/p", "0", "1", "-1", "404", "5s", "off", "*", 
 var c11More = []string{"99999999999999999999", "9223372036854775808", "1.5", "1KB", "-1MB", "10h", "-1s", "1x", "abc", "on", "http://localhost:1", "https://127.0.0.1:1",
 	"unix:/tmp/none.sock", ":", "::", "[::1]:80", "a,b", "a|b", "(", "[", "**", "\\", "%", "{{", "{{.}", "{", "}", "\"q arg\"", "\"multi\nline\"", "é", "htpasswd=@T@/htpasswd",
 	"htpasswd=@R@/htpasswd", "htpasswd=@R@/nope", "htpasswd=@R@/bad.htpasswd", "htpasswd=", "@T@/dir", "@T@", ".", "..", "self_signed", "max", "tls1.2", "tls1.3", "p256", "rsa2048", "localhost:1-3", "localhost:3-1",
-	"localhost:a-b", "srv://a", "srv+https://a", "{$CV_NOPE}", "+X", "-X", "X-H", "300", "301", "999", "0.0.0.0/0", "1.2.3.4/33", "::/0", "10", "php", "startup", "shutdown", "{>X}", "!"}
+	"localhost:a-b", "srv://a", "srv+https://a", "{$CV_NOPE}", "+X", "-X", "X-H", "300", "301", "999", "0.0.0.0/0", "1.2.3.4/33", "::/0", "10", "php", "startup", "shutdown", "{>X}", "!",
+	// durations: zero, negative, unit-less, overflowing, fractional (a ticker or a timeout built from one must cope)
+	"0s", "-5m", "0", "-0s", "9999999h", "1h2m3s", ".5s", "1ns", "5S",
+	// port ranges: huge, overflowing, inverted, empty, negative, outside 0-65535, with scheme and path, IPv6
+	"localhost:1-9223372036854775807", "localhost:1-99999999", "localhost:9223372036854775807-9223372036854775808", "localhost:65535-65536",
+	"localhost:60000-65535", "localhost:5-5", "localhost:-1-5", "localhost:1--5", "localhost:-5", "localhost:1-", "http://localhost:1-3/x", "[::1]:1-3", "localhost:00001-00003",
+	"unix:/tmp/none.sock:1-3"}
+
+// values a sub-block line is tried with besides the malformed ones: the well-formed shapes of every kind of value
+// (a failure behind a VALID line is as much a failure), zero / negative durations and numbers, port ranges
+var c11BlockVals = []string{"0s", "-1s", "1h", "-1", "off", "localhost:1-99999999999", "localhost:3-1", "localhost:1-3"}
+
+// value pairs for two keyword lines in one block: (path, zero duration), (path, negative duration), …
+var c11PairVals = [][2]string{{"/p", "0s"}, {"/p", "-1s"}, {"10s", "0"}, {"0s", "/p"}, {"5", "10s"}, {"-1s", "5"}}
 
 func c11Line(toks []string) string { return strings.Join(toks, " ") }
 
@@ -695,6 +746,21 @@ func c11SetupGen(g *hx.Gen) {
 				argsets = append(argsets, []string{a, b})
 			}
 		}
+		// a keyword next to each core class, in both orders (`rewrite not /a`), and a sub-directive name before two values
+		caseWords := c11CaseWords(repo, c11Pkg[d])
+		for _, kw := range vocab {
+			for _, a := range c11Core {
+				argsets = append(argsets, []string{kw, a}, []string{a, kw})
+			}
+		}
+		few := []string{"a", "/", "0", "5s", "\"\"", "@T@/file.txt"}
+		for _, kw := range caseWords {
+			for _, a := range few {
+				for _, b := range few {
+					argsets = append(argsets, []string{kw, a, b})
+				}
+			}
+		}
 		for _, as := range argsets {
 			emit(c11Config(d, as, nil, false, ""))
 		}
@@ -719,6 +785,9 @@ func c11SetupGen(g *hx.Gen) {
 			for _, a := range one {
 				variants = append(variants, []string{kw, a})
 			}
+			for _, a := range c11BlockVals {
+				variants = append(variants, []string{kw, a})
+			}
 			for _, ab := range two {
 				variants = append(variants, []string{kw, ab[0], ab[1]})
 			}
@@ -728,10 +797,30 @@ func c11SetupGen(g *hx.Gen) {
 					emit(c11Config(d, lead, [][]string{v}, true, ""))
 				}
 			}
+			// a closing brace in the middle of a line and no line that closes the block after it: the parser ends the
+			// directive there while the dispenser still counts an open block
+			for _, lead := range [][]string{{}, {"/", "a"}} {
+				head := "localhost:2015 {\n\t" + c11Line(append([]string{d}, lead...)) + " {\n\t\t"
+				for _, l := range []string{kw + " } x", kw + " a } x", kw + " a\n\t\tb } {{", "a\n\t\t" + kw + " a b } c d"} {
+					emit(head + l + "\n}\n")
+					emit(head + l + "\n")
+				}
+			}
 			short := [][]string{{kw}, {kw, "5"}, {kw, "/p"}, {kw, "10s"}, {kw, "1MB"}, {kw, "on"}, {kw, "a", "5"}, {kw, "/p", "1MB"}}
 			for _, lk := range own {
 				for _, v := range short {
 					emit(c11Config(d, []string{lk}, [][]string{v}, true, ""))
+				}
+			}
+		}
+		// two sub-block lines, both a keyword of the directive with a value: a setting is often only used once another
+		// one has switched the feature on (`health_check /p` + `health_check_interval 0s`), in either order
+		for _, lead := range [][]string{{}, {"/", "a"}} {
+			for _, k1 := range caseWords {
+				for _, k2 := range caseWords {
+					for _, pv := range c11PairVals {
+						emit(c11Config(d, lead, [][]string{{k1, pv[0]}, {k2, pv[1]}}, true, ""))
+					}
 				}
 			}
 		}
@@ -777,6 +866,8 @@ func c11SetupGen(g *hx.Gen) {
 					for k := r.Intn(4); k > 0; k-- {
 						if len(vocab) > 0 && r.Chance(1, 5) {
 							line = append(line, hx.Pick(r, vocab))
+						} else if r.Chance(1, 3) {
+							line = append(line, hx.Pick(r, append(append([]string{}, one...), c11BlockVals...)))
 						} else {
 							line = append(line, hx.Pick(r, all))
 						}
